@@ -10,7 +10,13 @@ Open Scope Z_scope.
    (the harness registers one that adds 1000) *)
 Inductive enode :=
 | ELeaf (v : option Z) (emit : bool) (ser : bool)
+(* a variable declared with `_units`: it holds the quantity `mag` in a unit of size `vscale` (in base units)
+   and is declared in the unit of size `dscale`; a row carries its magnitude in the declared unit *)
+| EQty (mag vscale dscale : Z) (emit : bool)
 | EDir (c : list (key * enode)).
+
+(* value.to(declared units).magnitude *)
+Definition to_units (mag vscale dscale : Z) : Z := mag * vscale / dscale.
 
 Definition serialize (ser : bool) (z : Z) : Z := if ser then z + 1000 else z.
 
@@ -18,6 +24,7 @@ Definition serialize (ser : bool) (z : Z) : Z := if ser then z + 1000 else z.
 Fixpoint emit_data (n : enode) : option (tree Z) :=
   match n with
   | ELeaf v e s => if e then option_map (fun z => Lf (serialize s z)) v else None
+  | EQty m vs ds e => if e then Some (Lf (to_units m vs ds)) else None
   | EDir [] => None                        (* a node without inner and without emit *)
   | EDir c =>
     Some (Nd ((fix go (c : list (key * enode)) : list (key * tree Z) :=
@@ -34,6 +41,7 @@ Fixpoint emit_data (n : enode) : option (tree Z) :=
 Fixpoint set_emit (b : bool) (n : enode) : enode :=
   match n with
   | ELeaf v _ s => ELeaf v b s
+  | EQty m vs ds _ => EQty m vs ds b
   | EDir c => EDir ((fix go (c : list (key * enode)) : list (key * enode) :=
                        match c with [] => [] | (k, x) :: r => (k, set_emit b x) :: go r end) c)
   end.
@@ -47,7 +55,7 @@ Fixpoint set_emit_at (b : bool) (n : enode) (p : list key) : enode :=
                           | Some x => EDir (aset k (set_emit_at b x r) c)
                           | None => n
                           end
-              | ELeaf _ _ _ => n
+              | _ => n
               end
   end.
 
@@ -59,6 +67,7 @@ Fixpoint apply_ecfg (n : enode) (cf : ecfg) {struct cf} : enode :=
   | ECfg e c =>
     match n with
     | ELeaf v old s => ELeaf v (match e with Some b => b | None => old end) s
+    | EQty m vs ds old => EQty m vs ds (match e with Some b => b | None => old end)
     | EDir nc =>
       let nc1 := match e with
                  | Some b => match set_emit b (EDir nc) with EDir x => x | _ => nc end
@@ -80,6 +89,7 @@ Fixpoint apply_ecfg (n : enode) (cf : ecfg) {struct cf} : enode :=
 Fixpoint eleaves (n : enode) (pre : list key) : list (list key * (option Z * bool * bool)) :=
   match n with
   | ELeaf v e s => [(pre, (v, e, s))]
+  | EQty m vs ds e => [(pre, (Some (to_units m vs ds), e, false))]
   | EDir c => (fix go (c : list (key * enode)) : list (list key * (option Z * bool * bool)) :=
                  match c with [] => [] | (k, x) :: r => eleaves x (pre ++ [k]) ++ go r end) c
   end.
